@@ -35,6 +35,20 @@ draw ranges of `Basic.drawsOK`) and `Props/C03.lean` restates the bounds / fallb
 over the generated definitions (`C03_source_translation_*`).  If the translator rejects the source or those
 proofs stop checking, that is a gate problem naming the broken declaration; the suites below then supply
 the failing input if there is one (else the VIOLATION line ends with no-failing-input-found).
+`py2lean_kernel.py` does the same for `calc_max_kernel_sizes` (agilerl/utils/evolvable_networks.py) and
+`MutableKernelSizes._later_layers_fit` (agilerl/modules/cnn.py) -> `lean/Gen/KernelGen.lean`, proved equal to the
+model's `CNN.maxKernels` / `CNN.laterFit` in `Proofs/KernelGenEq.lean` (which discharges the two function
+parameters of the translated CNN methods).
+
+Kernel arithmetic (round 5): suite `calc-max-kernel` calls the real `calc_max_kernel_sizes` and the real
+`_later_layers_fit` on random (input shape, kernels, strides) — non-square inputs, strides up to 7, kernels larger
+than their input, sizes up to 4096 — and compares with the model (`arch maps`, `arch fit`) and with an exact
+integer oracle of the statement (every bound in 1..9 and at most a quarter of the layer's own output map;
+`_later_layers_fit` = every kernel fits).  Suite `kernel-limit` drives real EvolvableCNNs on 4x4..16x16 images
+(strides 1..3, kernels up to the full map) through chains of change_kernel (explicit and drawn, every layer) /
+add_layer / remove_layer near the spatial limit, each step on a clone, with the forward pass, the rebuild and the
+model as oracle.  Probe `C03-cnn-change-kernel-downstream`: the two replays of the defect found in round 5
+(change_kernel inside its own draw range shrank the input of a later layer under its kernel).
 """
 from __future__ import annotations
 
@@ -49,6 +63,7 @@ import torch
 
 import common
 import py2lean_arch
+import py2lean_kernel
 from common import REPO, ROOT, Check, InfraError, ddmin
 
 warnings.filterwarnings("ignore")
@@ -63,6 +78,7 @@ FIND_STALE = "C03-nested-methods-stale-after-recreate"
 FIND_LAYER = "C03-encoder-layer-mutations-reenabled"
 FIND_CK_DEAD = "C03-encoder-change-kernel-dead"
 FIND_DUELING = "C03-dueling-head-init-dict"
+FIND_DOWNSTREAM = "C03-cnn-change-kernel-downstream"
 
 NODE_CHOICES = {"mlp": [16, 32, 64], "lstm": [16, 32, 64], "simba": [16, 32, 64],
                 "cnn": [8, 16, 32], "resnet": [8, 16, 32], "latent": [8, 16, 32]}
@@ -452,7 +468,7 @@ def define_lines(spec: dict, m, policy: dict) -> list[str]:
     """driver lines that make the model's current object equal to the live object `m`"""
     # the forwarding switch concerns heads inside an EvolvableWrapper only (StochasticActor)
     fwd = policy["forward_head"] or not (spec["kind"] == "net" and hasattr(m.head_net, "wrapped"))
-    lines = [f"arch policy {b01(fwd)} {b01(policy['clamp_kernel'])}"]
+    lines = [f"arch policy {b01(fwd)} {b01(policy['clamp_kernel'])} {b01(policy.get('fit_later', True))}"]
 
     def define_enc(mod, reg):
         if block_kind(mod) == "multi":
@@ -881,6 +897,9 @@ def classify(spec, steps, what: str):
         return FIND_KERNEL3D
     if "change_kernel" in what and "list assignment index out of range" in what:
         return FIND_KERNEL
+    if "change_kernel" in what and "Kernel size can't be greater than actual input size" in what \
+            and spec.get("kind", "").startswith("cnn"):
+        return FIND_DOWNSTREAM
     if spec.get("cls") == "StochasticActor" and "last_mutation_attr=None" in what and "head_net" in what:
         return FIND_HEAD
     if "change_kernel" in what and "last_mutation_attr=None" in what and spec.get("kind") == "net":
@@ -1247,7 +1266,7 @@ def probe_policy(chk: Check) -> tuple[dict, set]:
     the tree under test at the model's two switch points and the ids already reported (the suites do
     not report those again)."""
     handled: set = set()
-    policy = {"forward_head": True, "clamp_kernel": True}
+    policy = {"forward_head": True, "clamp_kernel": True, "fit_later": True}
     by_id = {s["id"]: s for s in subjects("quick")}
 
     def finding(fid, detail, spec, steps, **extra):
@@ -1277,6 +1296,17 @@ def probe_policy(chk: Check) -> tuple[dict, set]:
             finding(FIND_RESNET, f"EvolvableResNet.add_channel() (numpy draw, as architecture_mutate calls it) leaves "
                     f"channel_size a {type(m.channel_size).__name__}: {bad[0]}", spec, steps, oracle_problems=bad)
     guarded("resnet", by_id["resnet-default"], [{"method": "add_channel", "draw": "lo", "seed": 1, "clone": False}], p_resnet)
+
+    # round 5: change_kernel inside the range of its own draw must leave the LATER layers valid
+    def p_downstream(spec, steps):
+        res = run_chain(chk, spec, steps, policy)
+        if res["problems"]:
+            policy["fit_later"] = False
+            finding(FIND_DOWNSTREAM, "EvolvableCNN.change_kernel with a size inside the range of its own random draw "
+                    "leaves a later layer whose kernel no longer fits its (shrunk) input: " + res["problems"][0],
+                    spec, steps, oracle_problems=res["problems"])
+    for dspec, dsteps in downstream_replays():
+        guarded("downstream", dspec, dsteps, p_downstream)
 
     # D20: StochasticActor advertises head_net.* ; do they do anything?
     def p_head(spec, steps):
@@ -1460,13 +1490,243 @@ def safely(chk: Check, suite: str, spec: dict, policy: dict, fn, *args, default=
         return default
 
 
+# ----------------------------------------------------------------------------- kernel arithmetic (round 5)
+def downstream_replays() -> list[tuple[dict, list[dict]]]:
+    """the two replays of C03-cnn-change-kernel-downstream: (1) a user configuration, 8x8 image, kernels (1, 1, 8);
+    (2) reached from a one-layer CNN on a 28x28 image by advertised mutations with drawn layer indices only"""
+    s1 = {"id": "cnn-downstream-1", "kind": "cnn",
+          "cfg": dict(input_shape=[3, 8, 8], num_outputs=4,
+                      **small_cnn_cfg(ch=(2, 2, 2), k=(1, 1, 8), s=(1, 1, 1), hi_l=3, hi_c=4))}
+    st1 = [{"method": "change_kernel", "kwargs": {"kernel_size": 2, "hidden_layer": 1}}]
+    s2 = {"id": "cnn-downstream-2", "kind": "cnn",
+          "cfg": dict(input_shape=[3, 28, 28], num_outputs=4, **small_cnn_cfg(ch=(2,), k=(1,), s=(1,), hi_l=6, hi_c=4))}
+    ck = lambda j, k: {"method": "change_kernel", "kwargs": {"kernel_size": k, "hidden_layer": j}}   # noqa: E731
+    st2 = ([{"method": "add_layer", "draw": "lo"}] * 3 + [ck(1, 1), ck(2, 1), ck(3, 1)]
+           + [{"method": "add_layer", "draw": "hi"}] * 2 + [ck(3, 7), ck(2, 7), ck(1, 7)])
+    return [(s1, st1), (s2, st2)]
+
+
+def exact_maps(h: int, w: int, ks, ss):
+    out = []
+    for k, s in zip(ks, ss):
+        h, w = (h - k) // s + 1, (w - k) // s + 1
+        out.append((h, w))
+    return out
+
+
+def exact_fit(h: int, w: int, ks, ss) -> bool:
+    for k, s in zip(ks, ss):
+        if k > h or k > w:
+            return False
+        h, w = (h - k) // s + 1, (w - k) // s + 1
+    return True
+
+
+def kernel_calc_real(case: dict):
+    """the real calc_max_kernel_sizes / _later_layers_fit on one case and the exact statement as oracle:
+    (oracle problems, bounds returned, answers of _later_layers_fit, the (layer, size) pairs asked)"""
+    from agilerl.modules.cnn import MutableKernelSizes
+    from agilerl.utils.evolvable_networks import calc_max_kernel_sizes
+    c, h, w = case["shape"]
+    ks, ss, fits = case["kernels"], case["strides"], [tuple(f) for f in case["fits"]]
+    if not hasattr(MutableKernelSizes, "_later_layers_fit"):
+        fits = []          # a tree without the re-validation of the later layers (reported by the probe / kernel-limit)
+    n = len(ks)
+    problems = []
+    try:
+        got = calc_max_kernel_sizes([2] * n, list(ks), list(ss), [c, h, w])
+        got = [int(x) if float(x) == int(x) else float(x) for x in got]
+    except Exception as e:
+        return [f"calc_max_kernel_sizes raised {fault_text(e)}"], None, [], fits
+    maps = exact_maps(h, w, ks, ss)
+    if len(got) != n:
+        problems.append(f"calc_max_kernel_sizes returned {len(got)} bounds for {n} layers")
+    for i, (g, (mh, mw)) in enumerate(zip(got, maps)):
+        if not (isinstance(g, int) and 1 <= g <= 9):
+            problems.append(f"bound {g!r} of layer {i} is not an integer in 1..9")
+        elif g > 1 and 4 * g > min(mh, mw):
+            problems.append(f"bound {g} of layer {i} exceeds a quarter of its {mh}x{mw} output map")
+        elif g < 9 and 4 * (g + 1) <= min(mh, mw):
+            problems.append(f"bound {g} of layer {i} is below a quarter of its {mh}x{mw} output map")
+    fit_got = []
+    for j, k in fits:
+        try:
+            r = MutableKernelSizes(list(ks), "Conv2d", None)._later_layers_fit(j, k, list(ss), [c, h, w])
+        except Exception as e:
+            return problems + [f"_later_layers_fit({j}, {k}) raised {fault_text(e)}"], got, fit_got, fits
+        fit_got.append(bool(r))
+        ks2 = list(ks)
+        if 0 <= j < n:
+            ks2[j] = k
+        if bool(r) != exact_fit(h, w, ks2, ss):
+            problems.append(f"_later_layers_fit({j}, {k}) = {r} but the kernels {ks2} "
+                            f"{'all fit' if not r else 'do not all fit'} (strides {list(ss)}, input {h}x{w})")
+    return problems, got, fit_got, fits
+
+
+def kernel_calc_lines(case: dict, fits) -> list[str]:
+    c, h, w = case["shape"]
+    ks, ss = case["kernels"], case["strides"]
+    n = len(ks)
+    return ["reset", "arch def top cnn cnn " + " ".join(str(x) for x in [c, h, w, "_", 1, 1, max(n, 2), 1, 256, 0, n]
+                                                             + [2] * n + list(ks) + list(ss)),
+            "arch use top", "arch maps"] + [f"arch fit {j} {k}" for j, k in fits]
+
+
+def kernel_calc_diff(lines, out, got, fit_got, fits):
+    if "bad-op" in out[1:3]:
+        raise InfraError(f"model rejected {lines[1]!r}")
+    diff = None
+    mk = out[3].split(" | ")[1] if " | " in out[3] else out[3]
+    mk_l = [int(x) for x in re.findall(r"-?\d+", mk)]
+    if mk_l != got:
+        diff = f"calc_max_kernel_sizes: impl={got} model={mk}"
+    for (j, k), g, mo in zip(fits, fit_got, out[4:]):
+        if b01(g) != mo and diff is None:
+            diff = f"_later_layers_fit({j}, {k}): impl={g} model={mo}"
+    return diff
+
+
+def kernel_calc_case(chk: Check, case: dict) -> tuple[list[str], str | None]:
+    """one (input shape, kernels, strides): oracle problems of the real functions, first difference to the model"""
+    problems, got, fit_got, fits = kernel_calc_real(case)
+    if got is None:
+        return problems, None
+    lines = kernel_calc_lines(case, fits)
+    out = chk.driver.run(lines)
+    chk.corr["model_lines"] += len(lines)
+    return problems, kernel_calc_diff(lines, out, got, fit_got, fits)
+
+
+def kernel_calc_suite(chk: Check, n_cases: int) -> tuple[int, int]:
+    rng = chk.rng
+    cases = []
+    for t in range(n_cases):
+        n = rng.randint(1, 6)
+        big = rng.random() < 0.15
+        top = rng.choice([64, 300, 4096]) if big else rng.choice([6, 9, 12, 16, 28, 40, 64])
+        h = rng.randint(1, top)
+        w = h if rng.random() < 0.5 else rng.randint(1, top)
+        ks, ss = [], []
+        ch, cw = h, w
+        for _ in range(n):
+            m = max(1, min(ch, cw))
+            r = rng.random()
+            k = m if r < 0.15 else rng.randint(1, min(m, 12)) if r < 0.85 else rng.randint(1, 12)
+            s = rng.randint(1, 3) if rng.random() < 0.8 else rng.randint(1, 7)
+            ks.append(k)
+            ss.append(s)
+            ch, cw = (ch - k) // s + 1, (cw - k) // s + 1
+        fits = [(rng.randrange(n), rng.randint(1, 10)) for _ in range(3)]
+        cases.append({"shape": [rng.randint(1, 3), h, w], "kernels": ks, "strides": ss, "fits": fits})
+    real = [kernel_calc_real(c) for c in cases]
+    all_lines, spans = [], []
+    for c, (problems, got, fit_got, fits) in zip(cases, real):
+        ls = kernel_calc_lines(c, fits) if got is not None else []
+        spans.append((len(all_lines), len(ls)))
+        all_lines += ls
+    out = chk.driver.run(all_lines)
+    chk.corr["model_lines"] += len(all_lines)
+    ncase = ndiff = 0
+    for t, (case, (problems, got, fit_got, fits), (pos, ln)) in enumerate(zip(cases, real, spans)):
+        diff = kernel_calc_diff(all_lines[pos:pos + ln], out[pos:pos + ln], got, fit_got, fits) if ln else None
+        (_, h, w), ks, ss = case["shape"], case["kernels"], case["strides"]
+        ncase += 1
+        valid = all(a >= 1 and b >= 1 for a, b in exact_maps(h, w, ks, ss))
+        chk.case(["calc", case["shape"], ks, ss], nontrivial=len(ks) > 1,
+                 sample={"shape": case["shape"], "kernels": ks, "strides": ss} if t < 2 else None,
+                 tags=["calc-max-kernel", "valid-config" if valid else "kernel-exceeds-input",
+                       "square" if h == w else "non-square"])
+        replay_obj = {"suite": "calc-max-kernel", "call": "kernel_calc", "case": case,
+                      "oracle_problems": problems, "diff": diff,
+                      "correspondence": "real calc_max_kernel_sizes / _later_layers_fit vs Model/Arch.lean (maxKernels, laterFit)"}
+        if problems:
+            if ndiff < 3:
+                chk.violation(f"[calc-max-kernel] {problems[0]} (shape {case['shape']}, kernels {ks}, strides {ss})", replay_obj)
+            ndiff += 1
+        elif diff is not None:
+            if ndiff < 3:
+                _DEFERRED.append((f"[calc-max-kernel] implementation and Arch model disagree: {diff} (shape {case['shape']}, "
+                                  f"kernels {ks}, strides {ss}); the exact statement holds on this input", replay_obj))
+            ndiff += 1
+    return ncase, ndiff
+
+
+def kernel_limit_suite(chk: Check, policy: dict, known: set, n_chains: int, length: int) -> tuple[int, int]:
+    """real EvolvableCNNs on small images, chains of kernel / layer mutations near the spatial limit"""
+    rng = chk.rng
+    ncase = ndiff = 0
+    for t in range(n_chains):
+        h = rng.randint(4, 16)
+        w = h if rng.random() < 0.6 else rng.randint(4, 16)
+        n = rng.randint(1, 3)
+        ks, ss = [], []
+        ch, cw = h, w
+        for _ in range(n):
+            m = min(ch, cw)
+            r = rng.random()
+            k = m if r < 0.25 else 1 if r < 0.5 else rng.randint(1, m)
+            s = rng.randint(1, 3)
+            if (min(ch, cw) - k) // s + 1 < 1:
+                k = 1
+            ks.append(k)
+            ss.append(s)
+            ch, cw = (ch - k) // s + 1, (cw - k) // s + 1
+        spec = {"id": f"cnn-limit-{h}x{w}", "kind": "cnn", "seed": rng.randrange(1000),
+                "cfg": dict(input_shape=[2, h, w], num_outputs=3,
+                            **small_cnn_cfg(ch=(2,) * n, k=ks, s=ss, hi_l=rng.choice([n + 1, 4, 6]), hi_c=4))}
+        steps = []
+        for _ in range(length):
+            r = rng.random()
+            if r < 0.55:
+                steps.append({"method": "change_kernel",
+                              "kwargs": {"kernel_size": rng.randint(1, 9), "hidden_layer": rng.randint(0, 5)}})
+            elif r < 0.7:
+                steps.append({"method": "change_kernel", "draw": rng.choice(["hi", "rand"]), "seed": rng.randrange(1000)})
+            elif r < 0.9:
+                steps.append({"method": "add_layer", "draw": rng.choice(["hi", "lo", "rand"]), "seed": rng.randrange(1000)})
+            else:
+                steps.append({"method": "remove_layer", "draw": "lo", "seed": rng.randrange(1000)})
+        res = safely(chk, "kernel-limit", spec, policy, run_chain, chk, spec, steps, policy,
+                     default={"problems": [], "diff": None, "tags": [], "final": None})
+        ncase += 1
+        fin = res.get("final")
+        tags = ["kernel-limit", "square" if h == w else "non-square"]
+        if fin is not None:
+            try:
+                fm = exact_maps(h, w, list(fin.kernel_size), list(fin.stride_size))
+                tags.append("ends-tight" if fm and min(min(a, b) for a, b in fm) <= 2 else "ends-roomy")
+                if list(fin.kernel_size)[:n] != ks:
+                    tags.append("kernel-changed")
+            except Exception:
+                pass
+        chk.case(["kernel-limit", spec["cfg"]["input_shape"], ks, ss, [json.dumps(s, sort_keys=True) for s in steps]],
+                 nontrivial=True, sample={"spec": spec["cfg"]["input_shape"], "kernels": ks, "strides": ss,
+                                          "steps": [s["method"] for s in steps]} if t < 1 else None, tags=tags)
+        if res["problems"] or res["diff"] is not None:
+            ndiff += report(chk, "kernel-limit", spec, steps, res, policy, known)
+            if res["problems"]:
+                ndiff += 0
+    return ncase, ndiff
+
+
 def pre_gate(chk: Check) -> None:
     """Regenerate lean/Gen/ArchGen.lean from the source text of the tree under test (before the Lean gate)
     and re-check `generated = model` (Proofs/ArchGenEq.lean) and the theorems over the generated definitions
     (Props/C03.lean).  A failure is a gate problem; the suites then look for the failing input."""
+    # both generated files first: each gate builds Props.C03, which imports both (a stale KernelGen.lean left by a
+    # run against another tree must not be blamed on the first gate)
+    try:
+        ktext, _ = py2lean_kernel.translate(REPO)
+        py2lean_kernel.write_if_changed(ktext, common.LEAN_DIR / "Gen" / "KernelGen.lean")
+    except py2lean_kernel.Unsupported:
+        pass                                    # reported by its own gate below
     common.translation_gate(chk, py2lean_arch, "Gen/ArchGen.lean",
                             ["Gen.ArchGen", "Proofs.ArchGenEq", "Props.C03"],
                             "@mutation methods of EvolvableMLP / CNN / LSTM / SimBa / ResNet / EvolvableNetwork")
+    common.translation_gate(chk, py2lean_kernel, "Gen/KernelGen.lean",
+                            ["Gen.KernelGen", "Proofs.KernelGenEq", "Props.C03"],
+                            "calc_max_kernel_sizes and MutableKernelSizes._later_layers_fit")
 
 
 def run(chk: Check) -> None:
@@ -1484,6 +1744,10 @@ def run(chk: Check) -> None:
                 "sample_mutation_method, with and without clone between steps, and with a twin network receiving "
                 "the applied method with the returned kwargs.  distinct = distinct (subject, chain); non-trivial = a "
                 "fallback fired, a bound stopped the change, or the chain has more than one step")
+    chk.rule += ("  Kernel arithmetic: calc-max-kernel = random (input shape up to 4096, 1-6 layers, kernels 1..12 incl. larger "
+                 "than their input, strides 1..7, non-square inputs) through the real calc_max_kernel_sizes and _later_layers_fit; "
+                 "kernel-limit = real EvolvableCNNs on 4x4..16x16 images (strides 1..3, kernels up to the full map), chains of "
+                 "change_kernel (explicit kernel 1..9 on layer 0..5, or drawn) / add_layer / remove_layer, each step on a clone")
     chk.assumptions = [
         "numpy draws inside mutation methods go through np.random.randint / np.random.choice (served by a recorded stand-in)",
         "finiteness of outputs and acceptance of weights are checked on the real torch modules only (not modelled)",
@@ -1529,6 +1793,11 @@ def run(chk: Check) -> None:
         nn_ += 1
         chk.case([spec["id"], "numpy-init"], nontrivial=True, sample=None, tags=["numpy-init"])
     chk.suite("numpy-init", nn_, nd_)
+    # kernel arithmetic: the real calc_max_kernel_sizes / _later_layers_fit vs model vs exact statement; chains near the limit
+    n, d = kernel_calc_suite(chk, 150 if quick else 1500)
+    chk.suite("calc-max-kernel", n, d)
+    n, d = kernel_limit_suite(chk, policy, known, 14 if quick else 120, 5 if quick else 8)
+    chk.suite("kernel-limit", n, d)
     # walks
     length = 12 if quick else 50
     for spec in subs:
@@ -1616,6 +1885,33 @@ def selftest(chk: Check, policy: dict, known: set) -> None:
     finally:
         mlp_mod.EvolvableMLP.add_node = orig
     caught.append(("add_node without its HARD LIMIT", ok))
+    # 5. change_kernel_size without the re-validation of the later layers (the tree as found in round 5)
+    from agilerl.modules import cnn as cnn_mod
+    orig = cnn_mod.MutableKernelSizes._later_layers_fit
+    cnn_mod.MutableKernelSizes._later_layers_fit = lambda self, *a: True
+    try:
+        dspec, dsteps = downstream_replays()[0]
+        ok = noticed(dspec, dsteps)
+    finally:
+        cnn_mod.MutableKernelSizes._later_layers_fit = orig
+    caught.append(("_later_layers_fit always True", ok))
+    # 6. calc_max_kernel_sizes with half instead of a quarter of the map
+    from agilerl.utils import evolvable_networks as en_mod
+    orig = en_mod.calc_max_kernel_sizes
+
+    def half(channel_size, kernel_size, stride_size, input_shape):
+        out, (h, w) = [], input_shape[-2:]
+        for i, _ in enumerate(channel_size):
+            h, w = (h - kernel_size[i]) // stride_size[i] + 1, (w - kernel_size[i]) // stride_size[i] + 1
+            out.append(max(1, min(9, int(min(h, w) * 0.5))))
+        return out
+    en_mod.calc_max_kernel_sizes = half
+    try:
+        p_, d_ = kernel_calc_case(chk, {"shape": [2, 16, 16], "kernels": [1, 3], "strides": [1, 1], "fits": [(0, 2)]})
+        ok = bool(p_) or d_ is not None
+    finally:
+        en_mod.calc_max_kernel_sizes = orig
+    caught.append(("calc_max_kernel_sizes with half the map", ok))
     missed = [n for n, ok in caught if not ok]
     if missed:
         raise InfraError(f"C03 self-test: seeded faults not noticed: {missed}")
@@ -1642,6 +1938,16 @@ def _replay(chk: Check, path: str) -> int:
     c = c.get("replay", c)
     policy = c.get("policy", {"forward_head": True, "clamp_kernel": True})
     spec, steps = c["spec"], c["steps"]
+    if c.get("call") == "kernel_calc":
+        problems, diff = kernel_calc_case(chk, c["case"])
+        print(json.dumps({"case": c["case"], "oracle_problems": problems, "diff": diff}))
+        if problems:
+            print(f"VIOLATION property=C03 replay={path}")
+            return 1
+        if diff is not None:
+            print(f"VIOLATION property=C03 replay={path} no-failing-input-found")
+            return 1
+        return 0
     if c.get("call") == "numpy_init":
         bad = numpy_init_check(build(spec), c.get("nptype", "int64"))
         print(json.dumps({"numpy_init_problems": bad}))
